@@ -99,8 +99,8 @@ Check(x) ==
         r   == Handle(Guard, Fuel, t, req)
     IN  /\ SlashClean(req.src.segs) = x.s /\ SlashClean(req.dst.segs) = x.d     \* spellings denote s and d
         /\ WellFormed(t) /\ WellFormed(r.t)
-        /\ ReqOK(x.m, t, r.t, x.s, x.d)                                         \* the contract
-        /\ (r.ok /\ x.m = "MOVE" /\ x.s # x.d) => MovedTo(t, r.t, x.s, x.d)     \* success means moved
+        /\ ReqOK(x.m, t, r.t, x.s, x.d, NoCap)                                        \* the contract
+        /\ (r.ok /\ x.m = "MOVE" /\ x.s # x.d) => MovedTo(t, r.t, x.s, x.d, NoCap)    \* success means moved
 
 Emit(x) ==
     LET req == Req(x) IN
